@@ -549,6 +549,73 @@ def run_ragged(R, spec):
                                                                    validator=validator, sparse=sparse, perm=pi), pairs)
 
 
+def declared_defaults(R, seed):
+    """Members and arguments that declare a default (a list, a list of objects, an object): what one request spells never shows in the next one.
+    Every request of a sequence is also sent to an application of its own; the user function has to receive the same values both times."""
+    from io import BytesIO
+    from spyne import Application, Service, rpc, Integer, Unicode, ComplexModel, Array
+    from spyne.protocol.http import HttpRpc
+    from spyne.protocol.json import JsonDocument
+    from spyne.server.wsgi import WsgiApplication
+    rng = core.rng_for(seed, PROP, 'defaults')
+
+    def build(strict, validator):
+        seen = []
+        ns = 'urn:vf:c03:dd'
+        Obj = type('DdObj', (ComplexModel,), {'__namespace__': ns, 'a': Integer, 'b': Unicode})
+        H = type('DdH', (ComplexModel,), {'__namespace__': ns, 'items': Array(Obj, default=[]), 'pre': Array(Obj, default=[Obj(a=9, b='nine')]), 'tags': Array(Unicode, default=[]),
+                                         'one': Obj.customize(default=Obj(a=7, b='seven')), 'many': Obj.customize(max_occurs='unbounded', default=[]), 'n': Integer})
+
+        def show(o):
+            return None if o is None else (o.a, o.b)
+
+        def lst(v):
+            return None if v is None else [show(o) for o in v]
+
+        def f(ctx, h):
+            seen.append(None if h is None else (lst(h.items), lst(h.pre), h.tags if h.tags is None else list(h.tags), show(h.one), lst(h.many), h.n))
+            return 1
+
+        def g(ctx, items, tags, n):
+            seen.append((lst(items), tags if tags is None else list(tags), n))
+            return 1
+        S = type('DdSvc', (Service,), {'f': rpc(H, _returns=Integer)(f), 'g': rpc(Array(Obj, default=[]), Array(Unicode, default=[]), Integer, _returns=Integer)(g)})
+        app = Application([S], ns, name='Dd', in_protocol=HttpRpc(validator=validator, strict_arrays=strict), out_protocol=JsonDocument())
+        return WsgiApplication(app), seen
+
+    def call(w, seen, path, qs):
+        del seen[:]
+        env, inp = drive.make_environ('GET', path, qs, b'', None)
+        r = drive.call_wsgi(w, env, inp)
+        return (r.status, r.exc if r.exc is None else type(r.exc).__name__, list(seen))
+    pool_f = ['h.n=1', 'h.items[0].a=1&h.items[0].b=x&h.n=2', 'h.items[0].a=5&h.items[1].a=6', 'h.tags=p&h.tags=q', 'h.pre[0].a=3', 'h.one.a=4', 'h.one.b=k&h.n=3',
+              'h.many[0].a=8&h.many[1].b=z', 'h.items[0].b=only&h.pre[0].b=only&h.many[0].a=1&h.tags=t&h.one.a=0']
+    pool_g = ['n=1', 'items[0].a=1&tags=x&n=2', 'items[0].a=7&items[1].b=w', 'tags=p&tags=q', 'items[0].b=only']
+    for strict in (False, True):
+        for validator in (None, 'soft'):
+            for rep in range(3):
+                seq = [('/f', q) for q in rng.sample(pool_f, 5)] + [('/g', q) for q in rng.sample(pool_g, 3)]
+                rng.shuffle(seq)
+                seq = seq + [('/f', 'h.n=1'), ('/g', 'n=1')]
+                w, seen = build(strict, validator)
+                for i, (path, qs) in enumerate(seq):
+                    R.evaluations += 1
+                    R.count('default_sequence_requests')
+                    got = call(w, seen, path, qs)
+                    w1, seen1 = build(strict, validator)
+                    alone = call(w1, seen1, path, qs)
+                    case = {'scenario': 'declared_defaults', 'seed': seed, 'strict': strict, 'validator': validator, 'sequence': [list(x) for x in seq[:i + 1]]}
+                    if got[1] is not None or alone[1] is not None:
+                        R.violation('%s?%s raised %s (alone: %s)' % (path, qs, got[1], alone[1]), case, mech='escape:%s' % (got[1] or alone[1]))
+                        break
+                    if got != alone:
+                        R.violation('request %d of a sequence (%s?%s): the function received %r, the same request sent to an application of its own gives %r' % (
+                                    i + 1, path, qs, got[2], alone[2]), case, mech='declared_default_carries_values_of_an_earlier_request')
+                        break
+                else:
+                    R.nontrivial('declared_defaults', strict, validator, rep)
+
+
 def run(spec, R):
     if spec.get('mode') == 'ragged':
         run_ragged(R, spec)
@@ -561,12 +628,18 @@ def run(spec, R):
         self_reference_scenario(R, spec['seed'])
         run_universe(R, spec['seed'], SIBLINGS_UNIVERSE, 'thorough')
         declared_headers(R, spec['seed'])
+        declared_defaults(R, spec['seed'])
 
 
 def replay(v, R):
     c = v['repro']
     if c.get('scenario') == 'declared_headers':
         declared_headers(R, c['seed'])
+        for x in R.violations[:10]:
+            print('replayed:', x.get('mech'), x.get('what'))
+        return
+    if c.get('scenario') == 'declared_defaults':
+        declared_defaults(R, c['seed'])
         for x in R.violations[:10]:
             print('replayed:', x.get('mech'), x.get('what'))
         return
